@@ -275,6 +275,8 @@ def flow_part(ctx):
                 sc["n"], sc["period_s"], i, i + sc["n"], r["kinds"][i:i + sc["n"] + 1], gaps[i]),
                 {"flow": sc, "arrivals_ns": r["arrivals"], "kinds": r["kinds"]})
     ctx.traces += len(results)
+    from ext import redirect       # the same judge on flows whose GETs / POSTs are answered 3xx (chains of 1..endless)
+    redirect.c09_extend(ctx)
 
 
 def replay(ctx):
@@ -303,6 +305,9 @@ def replay(ctx):
 
 def run(ctx):
     if ctx.replay:
+        from ext import redirect
+        if redirect.owns(ctx.replay):
+            return redirect.replay(ctx)
         return replay(ctx)
     gen.gen_consts()
     try:
